@@ -25,7 +25,7 @@ import (
 )
 
 func concurrentDupPart(r *ev.Run, m *Material) {
-	trials := r.N(150, 2500)
+	trials := r.N(800, 8000)
 	certified := 0
 	var first map[string]interface{}
 	for t := 0; t < trials; t++ {
